@@ -17,6 +17,26 @@ import common as C
 
 LEVEL = "proof"
 KNOWN_CLASS = "shorthand_format_controls"
+KNOWN_VS = "variation_selector_blocks_decomposition"
+VARIATION_SELECTORS = set(range(0xFE00, 0xFE10)) | set(range(0xE0100, 0xE01F0)) | {0x180B, 0x180C, 0x180D, 0x180F}
+PRECOMPOSED = {0xE1, 0xE9, 0x1E0D}   # the precomposed letters of the search texts (c13.rs `search`)
+
+
+def in_vs_class(f):
+    """Known class, decided on the input: a variation selector inserted directly BEHIND a precomposed letter (the
+    normalizer gives up on a cluster that contains a variation selector, so the letter is no longer decomposed)."""
+    m = re.search(r"text=([0-9A-F,]*) pos=(\d+) cp=([0-9A-F]+)", f.get("case", ""))
+    if not m or int(m.group(3), 16) not in VARIATION_SELECTORS:
+        return False
+    text = [int(x, 16) for x in m.group(1).split(",") if x]
+    pos = int(m.group(2))
+    if 0 < pos <= len(text) and text[pos - 1] in PRECOMPOSED:
+        return True
+    # backward runs are reversed grapheme by grapheme before shaping: a selector at the very start of the text (a mark
+    # without a base, its own grapheme) then sits directly behind the first letter in the buffer
+    back = re.search(r"dir=(rtl|btt)", f.get("case", "")) is not None
+    return back and pos == 0 and len(text) > 0 and text[0] in PRECOMPOSED
+
 KNOWN_TEXT = ("U+1BCA0..U+1BCA3 (SHORTHAND FORMAT controls) are Default_Ignorable_Code_Point in Unicode 16 but "
               "is_default_ignorable excludes them on purpose (HarfBuzz issue 503): they are shown with their own glyphs")
 
@@ -385,15 +405,21 @@ def run(chk):
                 "end_to_end": probe(binp, spec, cp),
                 "contrast_neighbour_classified_alike_by_both": contrast(binp, spec, impl, cp),
                 "what": "is_default_ignorable(U+%04X) differs from Unicode 16 Default_Ignorable_Code_Point minus the four fillers" % cp})
+    vs_seen = []
     for f in fails:
         if in_known_class(f["cp"]) and chk.is_known(KNOWN_CLASS):
             known_seen = True
+            continue
+        if in_vs_class(f) and chk.is_known(KNOWN_VS):
+            vs_seen.append(f)
             continue
         if n_viol < 8:
             n_viol += 1
             chk.violation(f["what"], f)
     # a model/implementation disagreement outside the known class is explained by a classification difference already
     # reported; otherwise it is a broken tie
+    if vs_seen:
+        chk.known_finding(KNOWN_VS, "%d case(s), e.g. %s -> %s" % (len(vs_seen), vs_seen[0]["case"], vs_seen[0]["clause"]))
     if known_seen:
         chk.known_finding(KNOWN_CLASS, KNOWN_TEXT)
     elif chk.is_known(KNOWN_CLASS) and ok:
